@@ -68,7 +68,21 @@ pub fn contexts() -> Ctxs {
     // total, failing and builtin-shadowing user functions; builtins off
     let mut c = HCtx::new();
     c.set_value("a".into(), Value::Int(3)).unwrap();
-    c.set_function("f".into(), Function::new(|a| Ok(a.clone()))).unwrap();
+    // `f` re-enters the library (a user function may itself be defined by an expression): string-level and
+    // tree-level, shared and mutable, context-free
+    c.set_function(
+        "f".into(),
+        Function::new(|a| {
+            let inner = HCtx::new();
+            let _ = evalexpr::eval_with_context("1 + 1", &inner);
+            let _ = evalexpr::eval_int_with_context("2 * 3", &inner);
+            let _ = evalexpr::eval_with_context_mut("q = 1; q", &mut inner.clone());
+            let _ = evalexpr::eval("(1, 2)");
+            let _ = build_operator_tree::<DefaultNumericTypes>("a + 1").map(|t| t.eval_with_context(&inner));
+            Ok(a.clone())
+        }),
+    )
+    .unwrap();
     c.set_function("a".into(), Function::new(|a| Ok(Value::Tuple(vec![a.clone(), a.clone()])))).unwrap();
     c.set_function("g".into(), Function::new(|_| Err(EvalexprError::CustomMessage("g fails".into())))).unwrap();
     c.set_function("len".into(), Function::new(|_| Ok(Value::Int(-1)))).unwrap();
@@ -421,6 +435,7 @@ pub fn trace_main() -> i32 {
     rayon::ThreadPoolBuilder::new().num_threads(1).stack_size(8 << 20).build_global().ok();
     let t = Tier::Quick;
     let mut st = Stats::new();
+    st.merge(part_foreign_escapes());
     st.merge(part_identifiers(3));
     st.merge(part_code_points(false));
     st.merge(part_chars(3));
@@ -597,9 +612,36 @@ fn part_code_points(thorough: bool) -> Stats {
     })
 }
 
+/// (h) escape sequences of other languages inside string literals, with hexadecimal payloads at every
+/// boundary of the code space (surrogates, beyond U+10FFFF, empty, too long, not hexadecimal): today all of
+/// them are errors; whatever they are, they must not panic.
+fn part_foreign_escapes() -> Stats {
+    let cx = contexts();
+    let mut st = Stats::new();
+    let payloads = ["", "0", "41", "7f", "80", "ff", "100", "d7ff", "d800", "dbff", "dc00", "dfff", "e000", "fffd", "ffff", "10000", "10ffff", "110000", "ffffff", "1000000", "ffffffff", "100000000", "fffffffffffffffff", "g", "-1", " 41", "4 1", "+41", "0x41", "é"];
+    let mut bodies: Vec<String> = ["n", "r", "t", "0", "a", "b", "f", "v", "e", "'", "/", "N", "x", "u", "U", "101", "777", "8", "x4", "x41", "x414", "u41", "u0041", "u00410", "U00000041", "U0001F600", "N{DIGIT ONE}", "c", "\n", "\r\n", "xg", "u{", "u}", "u{}", "x{41}", "u(41)", "u[41]"].iter().map(|s| s.to_string()).collect();
+    for p in payloads {
+        bodies.push(format!("u{{{}}}", p));
+        bodies.push(format!("u{{{}", p));
+        bodies.push(format!("x{{{}}}", p));
+        bodies.push(format!("u{}", p));
+        bodies.push(format!("x{}", p));
+        bodies.push(format!("U{}", p));
+    }
+    for b in &bodies {
+        for src in [format!("\"\\{}\"", b), format!("\"a\\{}b\" + \"c\"", b), format!("len(\"\\{}\\{}\")", b, b), format!("x = \"\\\\\\{}\"", b)] {
+            check_source(&src, &cx, true, &mut st);
+            st.states += 1;
+            st.count("h/foreign-escape-sources");
+        }
+    }
+    st
+}
+
 pub fn run(cfg: &Cfg) -> Report {
     let t = cfg.tier;
     let mut stats = Stats::new();
+    stats.merge(part_foreign_escapes());
     stats.merge(part_code_points(t == Tier::Thorough));
     stats.merge(part_tokens(t.pick(4, 6), t.pick(3, 4)));
     stats.merge(part_chars(t.pick(3, 5)));
@@ -607,7 +649,7 @@ pub fn run(cfg: &Cfg) -> Report {
     stats.merge(part_builtins(t));
     stats.merge(part_operators());
     stats.merge(part_pumped());
-    stats.add("nontrivial-distinct", stats.get("a/token-sequences") + stats.get("b/char-strings") + stats.get("f/identifier-shape-sources") + stats.get("g/code-point-sources"));
+    stats.add("nontrivial-distinct", stats.get("a/token-sequences") + stats.get("b/char-strings") + stats.get("f/identifier-shape-sources") + stats.get("g/code-point-sources") + stats.get("h/foreign-escape-sources"));
     stats.sample(json!({"part": "a", "source": "( a += \"s\" , ! f"}));
     stats.sample(json!({"part": "b", "source": "1e-\n"}));
     stats.sample(json!({"part": "c", "call": "shl(x)", "x": RV::Tuple(vec![RV::Int(1), RV::Int(64)]).to_json()}));
@@ -620,7 +662,7 @@ pub fn run(cfg: &Cfg) -> Report {
     Report {
         property: ID,
         level: "model_checking",
-        rule: format!("(a) depth-first search over every token sequence of length <= {} over a 20-token alphabet (incl. dangling `&`, `|`), a state is a token prefix; (b) every character string of length <= {} over a 27-character alphabet (digits, e, x, dot, quote, backslash, comment and operator characters, whitespace, multi-byte characters); (c) 49 builtins x the C10 argument matrix, with the argument bound and literal-rendered; (d) every operator, op-assign, prefix operator and sequence x pool^2; (e) {} pumped families x lengths {:?} in child processes; (f) identifier shapes: every word of length <= {} over `a : _ . # 0` and two multi-byte characters, namespace fragments (`math::`, `str:` ...) and hexadecimal words of 15..200 digits, each in 11 syntactic positions (read, call forms, assignment targets, operand, group); (g) code points: every character in 0..=0x3000 and the encoding-length and plane boundaries (thorough: the whole BMP and a stride through the other planes) alone, inside an identifier, assigned and read, next to an operator, called, inside a string literal, inside a comment and between digits. Every input: tokenize, precompile, Display/Debug/clone/iterators of the tree, evaluation in 12 contexts (HashMapContext empty / identifiers bound to each type incl. extremes / total, failing and shadowing user functions / builtins off; EmptyContext; EmptyContextWithBuiltinFunctions) through shared and mutable forms, string-level forms, all typed wrappers on the shorter inputs, Display/Debug of every value and error. Both build profiles (overflow checks on, off). Non-trivial: every token sequence and character string (each enumerated once)", t.pick(4, 6), t.pick(3, 5), families().len(), PUMP_LENGTHS, t.pick(3, 4)),
+        rule: format!("(a) depth-first search over every token sequence of length <= {} over a 20-token alphabet (incl. dangling `&`, `|`), a state is a token prefix; (b) every character string of length <= {} over a 27-character alphabet (digits, e, x, dot, quote, backslash, comment and operator characters, whitespace, multi-byte characters); (c) 49 builtins x the C10 argument matrix, with the argument bound and literal-rendered; (d) every operator, op-assign, prefix operator and sequence x pool^2; (e) {} pumped families x lengths {:?} in child processes; (f) identifier shapes: every word of length <= {} over `a : _ . # 0` and two multi-byte characters, namespace fragments (`math::`, `str:` ...) and hexadecimal words of 15..200 digits, each in 11 syntactic positions (read, call forms, assignment targets, operand, group); (g) code points: every character in 0..=0x3000 and the encoding-length and plane boundaries (thorough: the whole BMP and a stride through the other planes) alone, inside an identifier, assigned and read, next to an operator, called, inside a string literal, inside a comment and between digits; (h) escape sequences of other languages inside string literals (`\\n`, `\\x41`, `\\u{{...}}`, `\\U...`, octal ...) with payloads at every boundary of the code space (surrogates, beyond U+10FFFF, empty, over-long, not hexadecimal). Every input: tokenize, precompile, Display/Debug/clone/iterators of the tree, evaluation in 12 contexts (HashMapContext empty / identifiers bound to each type incl. extremes / total, failing and shadowing user functions / builtins off; EmptyContext; EmptyContextWithBuiltinFunctions) through shared and mutable forms, string-level forms, all typed wrappers on the shorter inputs, Display/Debug of every value and error. Both build profiles (overflow checks on, off). Non-trivial: every token sequence and character string (each enumerated once)", t.pick(4, 6), t.pick(3, 5), families().len(), PUMP_LENGTHS, t.pick(3, 4)),
         nontrivial_set: "counter:nontrivial-distinct",
         exhaustive: true,
         bound_completed: format!("token sequences {}, character strings {}, pumped inputs to 4096 characters", t.pick(4, 6), t.pick(3, 5)),
